@@ -148,9 +148,12 @@ def unperturbed_source(ctx: RunContext, ln: Linked):
     nr = model.cfg_counts(ln.cfg)["nr"]
     if ln.call.kind == "fg":
         return ln.call, np.arange(0, nr)
-    # gradient-only: the cached function result = first vector of the latest functions-only call
+    # gradient-only: the function values of this point are those of the latest call that evaluated unperturbed rows
+    # (a functions-only call - its first vector - or a combined call: ropt keeps no function values across a combined
+    # evaluation, so on a correct tree a gradient-only call is never preceded by a combined one without a
+    # functions-only call in between)
     for c in reversed(ctx.evaluator.calls[: ln.call.k]):
-        if c.kind == "f" and c.config is ln.call.config and c.obj is not None:
+        if c.kind in ("f", "fg") and c.config is ln.call.config and c.obj is not None:
             return c, np.arange(0, nr)
     return None, None
 
